@@ -113,6 +113,22 @@ def inv_one(rec, conv, t):
             rec.violation(f"oklch_to_rgb_safe({t}) = {s} != plain {got}", {"fn": "inv", "t": list(t)})
 
 
+def extreme_one(rec, conv, t):
+    """Finite triples far outside the gamut: the plain inverse must still give three ints in 0..255, and the safe variant
+    (for H within [0,360]) the same."""
+    f, inv, fs, invs = conv
+    rec.count("inverse_extreme_checked")
+    try:
+        got = inv(t)
+    except Exception as e:
+        rec.violation(f"oklch_to_rgb({t}) raised {type(e).__name__}: {e}", {"fn": "inv", "t": list(t)})
+        return
+    if not valid_rgb(got):
+        rec.violation(f"oklch_to_rgb({t}) = {got!r} is not three ints in 0..255", {"fn": "inv", "t": list(t)})
+    elif invs is not None and 0 <= t[2] <= 360 and invs(t) != got:
+        rec.violation(f"oklch_to_rgb_safe({t}) = {invs(t)} != plain {got}", {"fn": "inv", "t": list(t)})
+
+
 BAD_F = [float("nan"), float("inf"), float("-inf"), 1e308, -1e308]
 
 
@@ -283,6 +299,14 @@ def work(shard, rec):
                 t = (min(1.0, max(0.0, L)), C * rnd.uniform(0.9, 1.3), H)
             elif i % 4 == 1:
                 t = (rnd.choice([0.0, 1.0, rnd.random()]), rnd.choice([0.0, rnd.uniform(0, 0.5)]), rnd.choice([0.0, 360.0, rnd.uniform(0, 360)]))
+            elif i % 40 == 2:
+                # far outside the gamut: any finite chroma, hue any number of turns (|H| <= 1e6; beyond ~5.7e307 the
+                # degree->radian product itself overflows - outside the property's quantifier, see DESIGN)
+                t = (rnd.choice([0.0, 1.0, rnd.random()]), rnd.choice([1.0, 37.5, 1e3, 1e50, 1e102, 1e103, 1e154, 1e200, 1e308]),
+                     rnd.choice([rnd.uniform(0, 360), rnd.uniform(-1e6, 1e6), 1e6, -720.0]))
+                extreme_one(rec, conv, t)
+                rec.ev()
+                continue
             else:
                 t = (rnd.random(), rnd.uniform(0, 0.5), rnd.uniform(0, 360))
             inv_one(rec, conv, t)
